@@ -7,6 +7,8 @@ import Verif.Model.CRL
           `r:<key>:<revokedAt>:<expiresAt|->:<generateOnRevoke 0|1>:<now>[:<fail>]` (a revocation); key = `x<hex>`;
           fail = the step at which the generation fails (2 GetCRL, 3 GetRevokedCertificates, 4 StoreCRL), default 0
       E = `s<thread>` | `r0`
+      optional `idp=x<configured IDPurl, may be empty> dns=x<first DNS name>`: the output then ends with ` idp=x<hex of the distribution point URL>`
+  `rsp enabled=0|1 pem=0|1 crl=<number>:<thisUpdate>:<nextUpdate>|none`   GET /crl: `<status> exp=<Expires as unix> pem=0|1 n=<number>`
       output: answers of the requests joined by `,` (ok already drop pend err), then every list
           stored, oldest first, as ` n=<number>,t=<thisUpdate>,u=<nextUpdate>,e=[<key>:<time>|…]` with entries
           sorted by key
@@ -70,8 +72,26 @@ def eval (line : String) : Option String := do
     let evs ← list? "," ev? (← lookup kv "evs")
     let g : G := { revoked := [], crl := none, log := [], lock := false, cache := cache, mutex := true }
     let s := machine.run (g, rs) evs
+    let idp := match lookup kv "idp", lookup kv "dns" with
+      | some i, some d => match str? i, str? d with
+        | some i, some d => " idp=x" ++ hex (idpURL i d)
+        | _, _ => " idp=parse-error"
+      | _, _ => ""
     pure (String.intercalate "," (s.2.map (outS ·.out)) ++
-      String.join (s.1.log.reverse.map fun c => " " ++ crlS c))
+      String.join (s.1.log.reverse.map fun c => " " ++ crlS c) ++ idp)
+  | some "rsp" =>
+    let enabled := (← lookup kv "enabled") = "1"
+    let pem := (← lookup kv "pem") = "1"
+    let crl ← match (← lookup kv "crl") with
+      | "none" => some none
+      | t => match t.splitOn ":" with
+        | [n, a, b] => do pure (some { number := (← n.toNat?), thisUpdate := (← a.toNat?), nextUpdate := (← b.toNat?), entries := [] : CRLRec })
+        | _ => none
+    let g : G := { revoked := [], crl := crl, log := [], lock := false, cache := 0, mutex := true }
+    let r := crlHandler enabled g pem
+    pure (match r.body with
+      | some c => s!"{r.status} exp={r.expires} pem={if r.pem then 1 else 0} n={c.number}"
+      | none => s!"{r.status}")
   | _ => none
 
 end C08
